@@ -8,9 +8,25 @@ from lib import core, runner, e4util
 TRANSPARENT = ["run.begin", "run.planned", "scan.next", "txn.commit", "commit.appended", "vacuum."]
 
 
-def wl(name, actors, passes=1, setup=None, expect=None):
-    return {"name": name, "setup": setup or e4util.BASE_SETUP, "actors": [{"name": n, "stmts": s} for n, s in actors],
-            "passes": passes, "tables": ["t", "u"], "transparent": TRANSPARENT, "expect": expect}
+def wl(name, actors, passes=1, setup=None, expect=None, opts=None, init=None):
+    w = {"name": name, "setup": setup or e4util.BASE_SETUP, "actors": [{"name": n, "stmts": s} for n, s in actors],
+         "passes": passes, "tables": ["t", "u"], "transparent": TRANSPARENT, "expect": expect}
+    if opts:
+        w["opts"] = opts
+    if init:
+        w["init"] = init
+    return w
+
+
+# a table whose first row-set is larger than the row-set size budget (the compactor never selects it) next to two small
+# row-sets that it merges: a compaction that replaces only SOME of the row-sets a concurrent DELETE has located
+BIG = list(range(1, 301))
+PARTIAL_OPTS = {"block": 64, "rowset": 700}
+PARTIAL_SETUP = ["create table t(a int)", "create table u(a int)",
+                 "insert into t values " + ",".join(f"({i})" for i in BIG), "insert into t values (1001)", "insert into t values (1002)",
+                 "insert into u values (1),(2)", "insert into u values (3)",
+                 "set mock_rowcount_t = 3", "set mock_rowcount_u = 3"]
+PARTIAL_INIT = {"t": BIG + [1001, 1002], "u": [1, 2, 3]}
 
 
 PK_SETUP = [s.replace("(a int)", "(a int primary key)") for s in e4util.BASE_SETUP]
@@ -35,6 +51,8 @@ def workloads(tier):
         wl("pk:del-t+ins-t", [("A", ["delete from t where a = 3"]), ("B", ["insert into t values (9)"])], setup=PK_SETUP),
         wl("del-t;del-u/2passes", [("A", ["delete from t where a = 1", "delete from u where a = 1"])], passes=2),
         wl("del-u+sel-u", [("A", ["delete from u where a = 1"]), ("B", ["select count(*) from u"])]),
+        wl("partial:del-big+small", [("A", ["delete from t where a = 5 or a = 1001"])], setup=PARTIAL_SETUP, opts=PARTIAL_OPTS, init=PARTIAL_INIT),
+        wl("partial:del+ins", [("A", ["delete from t where a = 7 or a = 1002"]), ("B", ["insert into t values (2000)"])], setup=PARTIAL_SETUP, opts=PARTIAL_OPTS, init=PARTIAL_INIT),
     ]
     for w in ws:
         two = len(w["actors"]) > 1
@@ -52,7 +70,7 @@ def model(w):
 
 def expected(w, stmts):
     import re
-    tabs = {"t": [1, 2, 3], "u": [1, 2, 3]}
+    tabs = {k: list(v) for k, v in (w.get("init") or {"t": [1, 2, 3], "u": [1, 2, 3]}).items()}
     notes = []
     for a in w["actors"]:
         res = stmts.get(a["name"])
@@ -64,10 +82,11 @@ def expected(w, stmts):
             m = re.match(r"insert into (\w+) values \((\d+)\)", sql)
             if m and acked:
                 tabs[m.group(1)].append(int(m.group(2)))
-            m = re.match(r"delete from (\w+)(?: where a = (\d+))?$", sql)
+            m = re.match(r"delete from (\w+)(?: where a = (\d+)(?: or a = (\d+))?)?$", sql)
             if m and acked:
                 t = m.group(1)
-                tabs[t] = [] if m.group(2) is None else [x for x in tabs[t] if x != int(m.group(2))]
+                gone = {int(g) for g in m.groups()[1:] if g is not None}
+                tabs[t] = [] if m.group(2) is None else [x for x in tabs[t] if x not in gone]
             if not acked and not sql.startswith("select"):
                 # a statement that fails (e.g. aborted on a conflict with a compaction) is simply not applied:
                 # the property constrains acknowledged operations only. A panic is still a violation.
@@ -79,7 +98,7 @@ def expected(w, stmts):
 def run(tier, seed):
     ws = workloads(tier)
     chk = core.Check("C09", tier, "model_checking",
-                     f"{len(ws)} workloads (client sessions with insert/delete statements on two tables of two row-sets each, 1-2 compactor passes, vacuum) x every "
+                     f"{len(ws)} workloads (client sessions with insert/delete statements on two tables of two row-sets each, plus a table with an over-budget row-set that compaction leaves alone (partial compaction), 1-2 compactor passes, vacuum) x every "
                      f"interleaving at the gates [compactor.pass/pinned/table/read_done, txn.pinned, txn.locked, commit.begin] with <= {ws[0]['bound']} preemptions (one-session workloads) / <= {ws[2]['bound']} (two-session workloads); "
                      "a case = (workload, schedule); oracle: final and reopened tables == initial + acked inserts - acked deletes; no panic, no deadlock; "
                      "non-trivial = the schedule interleaves a client with the compactor (>=1 preemption)", seed)
